@@ -1805,7 +1805,7 @@ def _remap_for_session_monitors(tr):
     the backend name), client tags /*cN*/; tracked GUCs are taken out of `gucs_out` (the pooler itself sets them for the
     next client at check-out: they are C12's subject, not left-over state)"""
     tracked_l = {k.lower() for k in TRACKED} | {"intervalstyle"}
-    sub = lambda s: TAG_RE.sub(lambda m: "/*c%s*/" % m.group(1), s) if isinstance(s, str) else s
+    sub = lambda s: TAG_RE.sub(lambda m: "/*c%s*//*n%s*/" % (m.group(1), m.group(2)), s) if isinstance(s, str) else s
     evs = []
     for e in tr.ev:
         who, k = e.get("who"), e.get("ev")
@@ -1849,8 +1849,13 @@ def mon_C01(tr, st):
     v01, _, own = _session_monitors(tr)
     st["C01:conn_handoffs+replies"] += len(tr.msgs) + len(tr.recv)
     out = [dict(v, kind=next((k for k in ("foreign_statement_in_transaction_of", "received_result_of", "transaction_spread_over_connections") if k in v), "c01")) for v in v01]
-    out += [dict(v, kind="row_of_another_statement" if "row_of_another_statement" in v else "reply_without_rows") for v in own
-            if "row_of_another_statement" in v or v.get("client") not in tr.client_taint]
+    for v in own:
+        # only for a client whose replies have matched the script so far (a reply that a fault made the script miss shifts
+        # every later reply of that client by one)
+        m = re.search(r"/\*c(\d+)\*//\*n(\d+)\*/", v.get("statement", ""))
+        op = tr.by_tag.get("t%s_%s" % (m.group(1), m.group(2))) if m else None
+        if op is not None and tr.ok_upto(op):
+            out.append(dict(v, kind="row_of_another_statement" if "row_of_another_statement" in v else "reply_without_rows"))
     # stronger than the client check: rows of a tagged simple query carry that very statement's tag
     for op in tr.ops:
         if op.get("proto") != "Q" or not tr.ok_upto(op):
